@@ -10,7 +10,7 @@ open KrakenModel KrakenModel.BlobStore KrakenModel.Tiered
 namespace C09Check
 
 def keysU : List Nat := [0, 1, 2, 9]
-def sfxU : List Nat := [0, 1, 2, 3]
+def sfxU : List Nat := [0, 1, 2, 3, 1000]
 
 def attachedB (w : Worker) (k id : Nat) : Bool :=
   w.key = k && w.ent = id && w.pc != .idle && w.pc != .next && w.pc != .unban
@@ -33,8 +33,8 @@ def phaseWB (w : Worker) (m : Blob) (d : Option Blob) (B : Bytes) (dirty : List 
   | .fOpen => d.isNone && coverB dirty [] m.mds
   | .fCreate => d.isNone && coverB dirty [] m.mds && w.minc == m.inc
   | .fCreated => diskPartialB d [] w.dinc && coverB dirty [] m.mds && w.minc == m.inc
-  | .fCopy => diskPartialB d [] w.dinc && coverB dirty [] m.mds && w.minc == m.inc
-  | .fCopyEof => diskPartialB d B w.dinc && coverB dirty [] m.mds && w.minc == m.inc
+  | .fCopy => diskPartialB d (B.take w.copied) w.dinc && coverB dirty [] m.mds && w.minc == m.inc
+  | .fCopyEof => diskPartialB d (B.take w.copied) w.dinc && coverB dirty [] m.mds && w.minc == m.inc
   | .fCopied ev => !ev && diskPartialB d B w.dinc && coverB dirty [] m.mds
   | .mdSnap => diskDoneB d B && coverB dirty (dmds d) m.mds
   | .mdRead todo => diskDoneB d B && coverB (dirty ++ todo) (dmds d) m.mds
